@@ -98,7 +98,7 @@ static const item *PFX;
 static int         pfx_pos;
 static long        clock_calls;
 int                vs_atomic_points;
-int                vs_unlock_points = 1;
+int                vs_unlock_points = 2;
 int                vs_io_points;
 int                vs_io_maxclamp = 8;
 int                vs_io_eagain;
@@ -357,13 +357,19 @@ __wrap_pthread_mutex_unlock(pthread_mutex_t *m)
 	// another thread (one blocked on, or woken towards, this mutex).  For
 	// race-free code this adds nothing; it exposes unsynchronised reads
 	// made after handing work to another thread.
+	// vs_unlock_points == 2: after every unlock (any other thread may run its critical
+	// section on this mutex before the code that follows the unlock, at the cost of one
+	// preemption instead of two).
 	if (vs_unlock_points && window) {
-		for (int i = 0; i < NT; i++)
-			if (&T[i] != self && T[i].state == ST_MUTEX &&
-			    T[i].obj == m) {
-				yield_to_sched();
-				break;
-			}
+		if (vs_unlock_points >= 2)
+			yield_to_sched();
+		else
+			for (int i = 0; i < NT; i++)
+				if (&T[i] != self && T[i].state == ST_MUTEX &&
+				    T[i].obj == m) {
+					yield_to_sched();
+					break;
+				}
 	}
 	return rv;
 }
